@@ -92,7 +92,7 @@ def family_doc(rng, i: int) -> tuple[dict, set[str]]:
         "properties": {
             m_other: {"type": "string"},
             m_a: wrap(w, {"$ref": f"#/definitions/{twin_a}"}),
-            m_b: wrap(w if rng.chance(2, 3) else "direct", {"$ref": f"#/definitions/{twin_b}"}),
+            m_b: wrap(w, {"$ref": f"#/definitions/{twin_b}"}),
         },
     }
     req = [m_a, m_b] if rng.chance(3, 4) else [m_b, m_a, m_other]
@@ -171,12 +171,14 @@ class Store:
         self.uid: dict[int, int] = {}
         self.rid: dict[int, int] = {}
         self.keep: list = []  # keeps the objects alive (ids must not be reused)
+        self.obj: dict[int, Any] = {}
         self.ref_paths: list[str] = []
 
     def u(self, o) -> int:
         if id(o) not in self.uid:
             self.uid[id(o)] = len(self.uid)
             self.keep.append(o)
+            self.obj[self.uid[id(o)]] = o
         return self.uid[id(o)]
 
     def r(self, ref) -> int:
@@ -206,7 +208,9 @@ class Store:
         for m in models:
             for dt in reachable_uses([m]):
                 owner.setdefault(self.u(dt), getattr(m, "class_name", "?"))
-        return {"uses": [self.u(dt) for dt in uses], "kids": kids, "ref_of": ref_of, "owner": owner,
+        top = {id(f.data_type) for m in models for f in getattr(m, "fields", None) or []} | {id(b) for m in models for b in getattr(m, "base_classes", None) or []}
+        nested = {self.u(dt): id(dt) not in top for dt in uses}
+        return {"uses": [self.u(dt) for dt in uses], "kids": kids, "ref_of": ref_of, "owner": owner, "nested": nested,
                 "models": [self.r(m.reference) for m in models if getattr(m, "reference", None) is not None]}
 
 
@@ -255,17 +259,33 @@ class Observed:
         def wrapper(*a, **k):
             models = a[0] if a and isinstance(a[0], list) and all(isinstance(m, DataModel) for m in a[0]) else None
             before = self.store.snapshot(list(models)) if models is not None and short == "reuse_model" else None
+            if before is not None:
+                self.reuse_models_before = list(models)
+                self.reuse_keys_before = {}
+                for m in models:
+                    try:
+                        self.reuse_keys_before[self.store.r(m.reference)] = (type(m).__name__, m.render(class_name="M"), tuple(sorted(str(i) for i in m.imports)))
+                    except Exception:  # noqa: BLE001
+                        pass
             r = fn(*a, **k)
             if models is not None:
                 after = self.store.snapshot(list(models))
                 self.stages.append((short, after))
                 if before is not None:
                     self.reuse = (before, after)
+                    # the reference of every use the pass was given, read right after the pass
+                    self.reuse_refs_after = {}
+                    for u in before["uses"]:
+                        ref = self.store.obj[u].reference
+                        self.reuse_refs_after[u] = None if ref is None else self.store.r(ref)
             return r
 
         setattr(p, name, wrapper)
 
     reuse: tuple[dict, dict] | None = None
+    reuse_models_before: list = []
+    reuse_keys_before: dict = {}
+    reuse_refs_after: dict = {}
 
 
 def unregistered(snap: dict) -> list[int]:
@@ -386,6 +406,197 @@ def required_only_kinds(doc: dict) -> list[str]:
     return sorted(out)
 
 
-def required_only(doc: dict) -> str:
-    """one label for the classification: the kinds joined by `+` (`none` when the document has no such member)"""
-    return "+".join(required_only_kinds(doc)) or "none"
+def required_only(doc: dict) -> tuple[str, str]:
+    """two labels for the classification: the target kinds (enum / object / other / root, sorted, joined by `+`; `none`
+    when there is no such member) of the re-declared members that are a direct `$ref`, and of those that are a
+    container (array / map / union) of a `$ref`"""
+    ks = required_only_kinds(doc)
+    d = "+".join(k[len("direct_"):] for k in ks if k.startswith("direct_")) or "none"
+    c = "+".join(k[len("container_"):] for k in ks if k.startswith("container_")) or "none"
+    return d, c
+
+
+# ---------------------------------------------------------------------------------------------
+# campaigns
+SUSPECTS: list[tuple[dict, str]] = []  # (document, style) on which the bookkeeping obligations broke — for the search
+
+# stages after which the passes that walk `children` (or decide by them) have all run: from the collapse pass on the
+# invariant is only counted (a collapsed use is a copy of the root model's type on purpose)
+WALKERS_DONE = "collapse_root_models"
+
+
+def _drops(o: "Observed") -> tuple[dict, dict, list[tuple[int, int, list[int]]], list[tuple[int, int, bool]]] | None:
+    """what the real `Parser.__reuse_model` was given and did: (store before, store after, [(dropped, kept, children
+    that take part)], [(use naming a dropped model, dropped, nested?)] for the uses that do NOT take part)"""
+    from datamodel_code_generator.parser.base import get_most_of_parent
+
+    if o.reuse is None:
+        return None
+    before, after = o.reuse
+    gone = [r for r in before["models"] if r not in after["models"]]
+    ops, outsiders = [], []
+    models_before = o.reuse_models_before
+    key_of = o.reuse_keys_before
+    for d in gone:
+        if key_of.get(d, ("",))[0] != "Enum":
+            continue  # a duplicate class is replaced by `class D(K): pass` under the same name: its uses are not re-pointed
+        # the survivor: the first model, in the order the pass sees them, with the same key (rendering + imports)
+        t = next((r for r in before["models"] if key_of.get(r) == key_of.get(d) and r != d), None)
+        if t is None:
+            continue
+        mask = []
+        for u in before["kids"].get(d, []):
+            obj = o.store.obj.get(u)
+            owner = get_most_of_parent(obj) if obj is not None else None
+            if any(owner is m for m in models_before):
+                mask.append(u)
+        ops.append((d, t, mask))
+        for u in before["uses"]:
+            if before["ref_of"][u] == d and u not in mask and u in before["kids"].get(d, []):
+                outsiders.append((u, d, before["nested"].get(u, False)))
+    return before, after, ops, outsiders
+
+
+def campaign_bookkeeping(ck, n: int) -> None:
+    camp = ck.campaign("Model.RefChildren on the REAL Parser.parse(): `registered` (decided by the Lean driver) on the store after parse_raw() and "
+                       "after every pass up to the last one that walks Reference.children; every use of a model dropped by Parser.__reuse_model "
+                       "takes part; `redirectAll` vs the reference of every use after the real pass — family: inherited members re-declared only "
+                       "through `required` (direct / array / map / nullable / union of a $ref to a twin enum, root model or object)")
+    t0 = time.time()
+    rng = ck.rng.fork("refkids-book")
+    off = rng.below(len(KINDS) * len(WRAPS) * len(SHAPES))
+    reqs, meta = [], []
+    for i in range(n):
+        doc, feats = family_doc(rng.fork(str(i)), off + i)
+        for f in feats:
+            camp.hit(f"feature:{f}")
+        style = STYLES[i % 2]
+        for gopts in ({"reuse_model": True}, {"reuse_model": True, "collapse_root_models": True}) if i % 3 else ({"reuse_model": True},):
+            try:
+                o = Observed(doc, style, gopts)
+            except Exception as e:  # noqa: BLE001
+                camp.unmodelled += 1
+                camp.hit(f"observer-raised:{type(e).__name__}")
+                continue
+            if o.error:
+                camp.unmodelled += 1
+                camp.hit(f"parse-raised:{o.error.split(':')[0]}")
+                continue
+            done = False
+            for name, snap in o.stages:
+                if name == WALKERS_DONE:
+                    done = True
+                if done:
+                    if unregistered(snap):
+                        camp.hit(f"after {name}: unregistered uses (counted only)")
+                    continue
+                reqs.append(request(snap, []))
+                meta.append(("stage", doc, style, gopts, name, snap, o))
+            dr = _drops(o)
+            if dr is None:
+                camp.hit("pass __reuse_model not observed")
+                continue
+            before, after, ops, outsiders = dr
+            camp.hit(f"drops={len(ops)}")
+            reqs.append(request(before, ops))
+            meta.append(("reuse", doc, style, gopts, (before, after, ops, outsiders), None, o))
+    replies = ck.driver.run(reqs)
+    for (what, doc, style, gopts, x, snap, o), rep in zip(meta, replies):
+        camp.evaluations += 1
+        model = parse_reply(rep)
+        inp = {"doc": doc, "style": style, "options": gopts}
+        if not isinstance(model, dict):
+            ck.infra_errors.append(f"driver reply {rep!r} for refkids.run")
+            continue
+        if what == "stage":
+            mine = unregistered(snap)
+            camp.hit(f"stage:{x}")
+            if mine != model["unregistered"]:
+                ck.infra_errors.append(f"harness and driver disagree on the unregistered uses: {mine} vs {model['unregistered']}")
+            if not model["registered"]:
+                SUSPECTS.append((doc, style))
+                ck.disagree(camp, {**inp, "stage": x}, "every use reachable from a member or base-class list is in the children of its reference",
+                            "not registered: " + ", ".join(f"a use in class {snap['owner'].get(u)} of {o.store.ref_paths[snap['ref_of'][u]]}" for u in model["unregistered"][:4]))
+            continue
+        before, after, ops, outsiders = x
+        camp.distinct.add(hash((semgen.canon(doc), style, json.dumps(gopts, sort_keys=True))))
+        # (a) hypothesis "every use of the dropped model takes part"
+        for u, d, nested in outsiders:
+            if nested and "container_enum" in required_only_kinds(doc):
+                # known finding D46 (the nested type of a re-declared container member has no `parent`): judged by the oracle
+                camp.hit("use of a dropped enum that does not take part: nested in a re-declared container member (D46)")
+                continue
+            SUSPECTS.append((doc, style))
+            ck.disagree(camp, {**inp, "stage": "reuse_model"}, "every use of the dropped model belongs to a model of the module (takes part)",
+                        f"the use in class {before['owner'].get(u)} of {o.store.ref_paths[d]} is a child of the reference but its owner is not found")
+        # (b) the model's re-pointing against the real one, on every use
+        real = dict(o.reuse_refs_after)
+        if model["ref_of"] != real:
+            SUSPECTS.append((doc, style))
+            ck.disagree(camp, {**inp, "stage": "reuse_model", "drops": ops}, model["ref_of"], real)
+        elif len(camp.samples) < 2 and ops:
+            camp.samples.append({**inp, "drops": ops, "uses": before["uses"], "left_behind": model["left_behind"]})
+        # (c) conclusion of `redirect_leaves_no_use`, read off the model's run: nobody names a dropped model
+        if any(model["left_behind"][k] for k in range(len(model["left_behind"]))):
+            camp.hit("a use still names a dropped model after the pass")
+    camp.wall_s = time.time() - t0
+
+
+STYLES = ("v1", "v2")
+
+
+def rewriting_variants() -> list:
+    from . import c14
+
+    return [v for v in c14.VARIANTS if any(k in v[0] for k in REWRITING)]
+
+
+def family_tasks(rng, n: int, off: int, both_styles: bool, camp=None) -> list[tuple]:
+    tasks = []
+    var = rewriting_variants()
+    for i in range(n):
+        doc, feats = family_doc(rng.fork(str(i)), off + i)
+        if camp is not None:
+            for f in feats:
+                camp.hit(f"feature:{f}")
+        for st in STYLES if both_styles else (STYLES[(i // 2) % 2],):
+            tasks.append((doc, st, var))
+    return tasks
+
+
+def campaign_family(ck, n: int, both_styles: bool) -> None:
+    """the property's own oracle on the family: the option-free baseline against every variant that contains
+    reuse_model / collapse_root_models — same verdicts on the instance corpus, same reported schemas, every class usable"""
+    from . import c14
+
+    camp = ck.campaign("differential oracle between two REAL runs, family: allOf child / grandchild re-declares inherited members only through "
+                       "`required`, member type = direct / array / map / nullable / union of a $ref to a definition with a twin (enum, root model, "
+                       "object): baseline vs every variant with reuse_model or collapse_root_models")
+    t0 = time.time()
+    rng = ck.rng.fork("refkids-e2e")
+    c14.run_tasks(ck, camp, family_tasks(rng, n, rng.below(len(KINDS) * len(WRAPS) * len(SHAPES)), both_styles, camp))
+    camp.wall_s = time.time() - t0
+
+
+def search(ck) -> None:
+    """after a broken obligation: the documents on which the bookkeeping broke are complete documents — the property's
+    oracle on them first (every variant that rewrites uses, both styles), then more of the family"""
+    from . import c14
+
+    camp = ck.campaign("search: documents on which the bookkeeping obligations broke, then more of the family, under the variants that rewrite uses")
+    var = rewriting_variants()
+    seen, tasks = set(), []
+    for doc, _st in SUSPECTS:
+        k = semgen.canon(doc)
+        if k in seen:
+            continue
+        seen.add(k)
+        for st in STYLES:
+            tasks.append((doc, st, var))
+        if len(seen) >= 12:
+            break
+    c14.run_tasks(ck, camp, tasks)
+    if ck.failures:
+        return
+    rng = ck.rng.fork("refkids-search")
+    c14.run_tasks(ck, camp, family_tasks(rng, 140, 0, True))
